@@ -1,6 +1,7 @@
 import RoaringModel.Spec
 import RoaringModel.Ser
 import RoaringModel.IterStep
+import RoaringModel.TreemapIter
 /-!
 # Driver core: state, token parsing, canonical `dump`
 
@@ -95,10 +96,27 @@ def storeWF : Store → Bool
 def bitmapWF (b : Bitmap) : Bool :=
   keysStrictlyAscending b && b.all (fun c => c.key < 65536 && storeWF c.store)
 
+/-- treemap slot: MODEL value and SPEC set of `u64` -/
+structure TSlot where
+  m : Treemap
+  s : List Nat
+deriving Inhabited
+
+/-- 64-bit iterator slot: the mirrored `treemap::Iter` / `treemap::IntoIter` over the C03 list cursor -/
+inductive JIter where
+  | borrowed (it : TIter.Iter TIter.Inner.list)
+  | owned (it : TIter.IntoIter TIter.Inner.list)
+
+structure JSlot where
+  m : JIter
+  s : List Nat
+
 structure DState where
   dbg : Bool := true
   bm : Array (Option Slot) := Array.replicate 64 none
   it : Array (Option ISlot) := Array.replicate 64 none
+  tm : Array (Option TSlot) := Array.replicate 64 none
+  jt : Array (Option JSlot) := Array.replicate 64 none
 deriving Inhabited
 
 def DState.getB (st : DState) (i : Nat) : Option Slot := (st.bm.getD i none)
@@ -108,6 +126,12 @@ def DState.setB (st : DState) (i : Nat) (s : Slot) : DState :=
 def DState.getI (st : DState) (i : Nat) : Option ISlot := (st.it.getD i none)
 def DState.setI (st : DState) (i : Nat) (s : Option ISlot) : DState :=
   if i < st.it.size then { st with it := st.it.set! i s } else st
+def DState.getT (st : DState) (i : Nat) : Option TSlot := (st.tm.getD i none)
+def DState.setT (st : DState) (i : Nat) (s : TSlot) : DState :=
+  if i < st.tm.size then { st with tm := st.tm.set! i (some s) } else st
+def DState.getJ (st : DState) (i : Nat) : Option JSlot := (st.jt.getD i none)
+def DState.setJ (st : DState) (i : Nat) (s : JSlot) : DState :=
+  if i < st.jt.size then { st with jt := st.jt.set! i (some s) } else st
 
 /-- result of one op: new state and the output line; `none` = not handled by this family -/
 abbrev Handler := DState → List String → Option (DState × String)
